@@ -66,7 +66,13 @@ pub fn parse_choice(
     // Only scan when there is no start text yet on the header line.
     // We scan when: the header has conditions OR we absorb body conditions.
     let header_has_conditions = !conditions.is_empty();
-    if choice_text.start_text.is_empty() && choice_text.choice_only_text.is_empty() {
+    // A header that ends in a divert arrow (`* {cond} ->`) is a complete fallback choice:
+    // the lines below it are its body, not its text.
+    let header_is_divert = remainder.trim_start().starts_with("->");
+    if choice_text.start_text.is_empty()
+        && choice_text.choice_only_text.is_empty()
+        && !header_is_divert
+    {
         let mut absorbed_body_conditions = false;
         while *line_index < lines.len() {
             let peek = &lines[*line_index];
